@@ -126,6 +126,10 @@ def finish(run: Run, seed: int = 0) -> int:
         print(f"  note: known finding no longer derived (repaired?): {k}")
 
     ev_dir = os.path.join(VERIF, "evidence")
+    if os.environ.get("SA_NO_EVIDENCE"):
+        # ad-hoc runs against scratch copies (tools/seedcheck.py) must not overwrite the committed evidence
+        import tempfile
+        ev_dir = tempfile.mkdtemp(prefix="sa_ev_")
     os.makedirs(os.path.join(ev_dir, "replay"), exist_ok=True)
     for o in new:
         h = hashlib.sha1(o.key.encode()).hexdigest()[:10]
